@@ -10,7 +10,7 @@ cd $w
 /venv/bin/python demo.py >/tmp/conf-demo0.log 2>&1; d0=$?
 git apply --whitespace=nowarn $src/patch$n.diff || { echo "patch does not apply"; cd /; git -C /repo worktree remove --force $w; exit 3; }
 /venv/bin/python demo.py >/tmp/conf-demo1.log 2>&1; d1=$?
-/venv/bin/python -m pytest $tests -q -p no:cacheprovider --timeout=900 -q --deselect tests/core/test_signals.py --deselect tests/io/test_process.py::test2 --deselect "tests/net/test_tcp.py::test_tcp_lookup_failure" > /tmp/conf-tests.log 2>&1; t=$?
+timeout -k 10 1500 /venv/bin/python -m pytest $tests -q -p no:cacheprovider --timeout=900 -q --deselect tests/core/test_signals.py --deselect tests/io/test_process.py::test2 --deselect "tests/net/test_tcp.py::test_tcp_lookup_failure" > /tmp/conf-tests.log 2>&1; t=$?
 tsum=$(tail -1 /tmp/conf-tests.log)
 cd /verif
 chk=$(VERIF_REPO=$w VERIF_OUT=$w/out ./check $id 2>&1 | grep -E "^violated clause|rc=" | head -2 | cut -c1-200 | tr '\n' ' ')
